@@ -228,6 +228,7 @@ type Sched struct {
 	Trace     []string
 	Quiesce   func() // scenario observer run whenever virtual time is about to advance, and at the end
 	inQuiesce bool
+	devOff    bool // schedule alternatives are not offered at present (see SetDeviations)
 	Touched   int // number of scheduling points with >1 candidate
 	SelTies   int
 }
@@ -527,7 +528,7 @@ func (s *Sched) pick() *G {
 		idx := 0
 		if len(cands) > 1 {
 			s.Touched++
-			if !s.cfg.Fixed {
+			if !s.cfg.Fixed && !s.devOff {
 				cost := 0
 				if s.cfg.Deviation || (cands[0].g != nil && cands[0].g == s.cur) {
 					cost = 1
@@ -822,6 +823,30 @@ func Go(f func()) {
 	Do(&Op{Kind: KSpawn, Desc: "spawn"})
 }
 
+// SpawnFromTimer starts a controlled goroutine from inside a timer's Fire (time.AfterFunc, context.AfterFunc):
+// the goroutine is registered and becomes schedulable; there is no scheduling point at the spawn itself.
+//
+//go:norace
+func SpawnFromTimer(f func()) {
+	s := S
+	if s == nil {
+		go f()
+		return
+	}
+	g := s.newG(s.cur)
+	go s.body(g, f)
+}
+
+// ModelChanLen reports how many elements the model has in the channel.
+//
+//go:norace
+func ModelChanLen(key uintptr) int {
+	if S == nil {
+		return 0
+	}
+	return S.ch(key, 0, 1).n
+}
+
 // GoNamed is Go with a label for traces.
 func GoNamed(name string, f func()) {
 	s := S
@@ -833,6 +858,19 @@ func GoNamed(name string, f func()) {
 
 // Choose is an environment choice with n alternatives (never costs budget, never a scheduling point).
 //
+// SetDeviations switches the offering of schedule alternatives on or off from inside the scenario: while
+// off, the default schedule is followed and no schedule choice points are recorded (environment choices
+// and select ties are unaffected).  A scenario that runs for many virtual slots uses it to confine the
+// schedule bound to the instants it is about (a start, the handling of an event).  It must be called at
+// the same places in every execution of a unit.
+//
+//go:norace
+func SetDeviations(on bool) {
+	if s := S; s != nil {
+		s.devOff = !on
+	}
+}
+
 //go:norace
 func Choose(n int) int {
 	s := S
